@@ -484,8 +484,7 @@ func HarnessC18FileSize() {
 		want := uint64(nd)
 		var sizes []uint64
 		for i := 0; i < k; i++ {
-			sz := uint64(verifrt.NondetU32("bs")) // three varint classes are enough: the claim is about sums, not encodings
-			verifrt.Assume(sz < 1<<21)
+			sz := uint64(verifrt.NondetU16("bs")) // three varint classes are enough: the claim is about sums, not encodings
 			sizes = append(sizes, sz)
 			n.AddBlockSize(sz)
 			want += sz
